@@ -56,6 +56,7 @@ func genC09(t *rapid.T) CaseC09 {
 			c.BadCRC = rapid.IntRange(1, 32).Draw(t, "bad-crc-bit")
 		}
 		c.Tail = rapid.SampledFrom([]int{0, 0, 0, 1, 4, 30}).Draw(t, "tail")
+		c.Splice.Stuffing = rapid.SampledFrom([]int{0, 0, 0, 1, 3, 8}).Draw(t, "input-alignment-stuffing")
 	}
 	if rapid.IntRange(0, 2).Draw(t, "with-muts") != 0 {
 		c.Muts = rapid.SliceOfN(rapid.Custom(func(t *rapid.T) MutC09 {
@@ -76,6 +77,7 @@ func genC09(t *rapid.T) CaseC09 {
 // c09DecodedView zeroes the fields the syntax does not carry: that is the
 // state a decoder is left with, and what later setter calls build upon.
 func c09DecodedView(m ref.Splice) ref.Splice {
+	m.Stuffing = 0 // the decoder does not count alignment stuffing; a re-encoding carries what SetAlignmentStuffing asked for
 	if m.Cmd != 0x06 {
 		m.TSHasPTS, m.TSPTS = false, 0
 	}
@@ -572,6 +574,7 @@ func checkC09(c CaseC09, x *hx.Ctx) *hx.Failure {
 			// re-encoding a decoded canonical section reproduces it byte for byte
 			re := st.sig.UpdateData()
 			nm := c09Normalise(c.Splice)
+			nm.Stuffing = 0
 			want := nm.Encode()
 			if !bytes.Equal(re, want) {
 				return hx.Failf("reencode", "re-encoding the decoded section differs from its canonical form at byte %d (canonical input: %v)\n input %x\n want  %x\n got   %x", firstDiff(re, want), c.Splice.Canonical(), sec, want, re)
